@@ -394,7 +394,10 @@ impl World {
         let (runs_before, reentrant, map) = {
             let m = self.m.borrow();
             let map = m.actions[uid as usize].map;
-            let re = m.frames.iter().any(|f| matches!(f.kind, FrameKind::Action(a) if m.actions[a as usize].map == map));
+            // re-entrant: an action of the same cleaner is running, or a clean() of the same cleaner is still in progress
+            // further up (its map is borrowed until the action it removed, and that action's captures, are dropped)
+            let re = m.frames.iter().any(|f| matches!(f.kind, FrameKind::Action(a) if m.actions[a as usize].map == map))
+                || m.clean_stack.iter().any(|u| m.actions[*u as usize].map == map);
             (m.actions[uid as usize].runs, re, map)
         };
         let map_alive = {
@@ -833,7 +836,8 @@ impl World {
             phead = Some(Box::new(plain::Nest { key: k, next: phead.take() }));
         }
         let (a, b) = (format!("{:?}", head.as_ref().unwrap()), format!("{:?}", phead.as_ref().unwrap()));
-        let (c, d) = (format!("{:#?}", head.as_ref().unwrap()), format!("{:#?}", phead.as_ref().unwrap()));
+        // (pretty printing nests one padding adapter per level: quadratic, so only for short chains)
+        let (c, d) = if n <= 40 { (format!("{:#?}", head.as_ref().unwrap()), format!("{:#?}", phead.as_ref().unwrap())) } else { (String::new(), String::new()) };
         drop(head);
         if auto_was == Some(true) {
             compat::cfg_set_auto(true);
